@@ -33,7 +33,7 @@ def seeded_table():
         import re
         m = re.search(r"-r(\d+)m", name)
         return int(m.group(1)) if m else 1
-    briefs = {1: "two changes each, free choice", 2: "three each: interactions, fault paths, sequences/boundaries", 3: "two each: told which kinds were already tried", 4: "two each: enumerate the clauses, break the two least likely to be exercised, from outside the feature's main function", 5: "three each, the unsteered brief of round 1", 6: "three each, unsteered again", 7: "two each: each change must hang on an option, mode or input form the statement does not mention", 8: "two each: one hanging on the environment, one on an extreme shape of the input", 9: "two each: needles in a haystack (a trigger that random inputs of ordinary size produce with probability below one in a million, yet plausible in real use)", 10: "two each, the unsteered brief of round 1 once more", 11: "two each: a plausible performance optimisation (cache, fast path, reused buffer, avoided system call) that is wrong in a corner", 12: "two each: regressions that show only in the real executables (told that the reviewer's harness calls find_main/xargs_main in-process with fakes)"}
+    briefs = {1: "two changes each, free choice", 2: "three each: interactions, fault paths, sequences/boundaries", 3: "two each: told which kinds were already tried", 4: "two each: enumerate the clauses, break the two least likely to be exercised, from outside the feature's main function", 5: "three each, the unsteered brief of round 1", 6: "three each, unsteered again", 7: "two each: each change must hang on an option, mode or input form the statement does not mention", 8: "two each: one hanging on the environment, one on an extreme shape of the input", 9: "two each: needles in a haystack (a trigger that random inputs of ordinary size produce with probability below one in a million, yet plausible in real use)", 10: "two each, the unsteered brief of round 1 once more", 11: "two each: a plausible performance optimisation (cache, fast path, reused buffer, avoided system call) that is wrong in a corner", 12: "two each: regressions that show only in the real executables (told that the reviewer's harness calls find_main/xargs_main in-process with fakes)", 13: "up to two each: (a) two cooperating sites that each look fine alone (state whose meaning changes at one site, relied on at another only on a rare path), (b) a fault or event at a particular point of a multi-step sequence"}
     per = {}
     for r in rows:
         k = round_of(r[0])
